@@ -70,7 +70,7 @@ def k_convert(ctx):
 
     r = ctx.rng
     cases = []
-    for _ in range(ctx.n(1500, 150000)):
+    for _ in range(ctx.n(1500, 30000)):
         text, neg, mant, e, up = gen_literal(r)
         ctx.evaluations += 1
         try:
@@ -100,7 +100,7 @@ def k_convert(ctx):
         elif exact.denominator == 1 and exact >= 0:
             ctx.fail("convert-rejects-valid", f"convert_to_bytes({text!r}) rejected a whole non-negative number of bytes", {"literal": text})
     # ints and floats
-    for _ in range(ctx.n(300, 20000)):
+    for _ in range(ctx.n(300, 4000)):
         if r.random() < 0.5:
             z = r.choice([0, 1, -1, r.randint(-10**6, 10**18), 2**63, 2**70 + 1])
             try:
